@@ -33,15 +33,61 @@ Theorem c04_src_resend : forall s r t ck cond,
 Proof. exact src_resend. Qed.
 Print Assumptions c04_src_resend.
 
-(* expiry N: the Positive ACK Limit fault is declared, exactly then (its effect is C14's) *)
+(* expiry N: the Positive ACK Limit fault is declared, exactly then, and, its handler not being IGNORE, the call ends
+   there (its effect is C14's).  After the F34 repair the handler IGNORE lets the procedure carry on
+   (c04_src_ack_limit_ignored_continues below), so without the handler hypothesis the statement is false:
+   RetryProofs.CounterExamples.handler_needed *)
 Theorem c04_src_limit : forall s r t,
   src_waiting_ack s r t -> timed_out (now_s s) t = true -> r_ack_limit r <= q_ack_counter (s_p s) + 1 ->
+  get_fault_handler (l_faults (s_cfg s)) C_POS_ACK_LIMIT <> Some FH_IGNORE ->
   (exists s', declare_fault_s C_POS_ACK_LIMIT s = (s', Ok tt) /\
               (s_step s' = SS_WAITING_FOR_EOF_ACK \/ s_step s' = SS_IDLE) /\
               state_machine_s None s = (s', Ok tt)) \/
   (exists s' e, declare_fault_s C_POS_ACK_LIMIT s = (s', Err e) /\ state_machine_s None s = (s', Err e)).
 Proof. exact src_limit. Qed.
 Print Assumptions c04_src_limit.
+
+(* expiry N, handler IGNORE (F34 repair): exactly one IGNORE callback, then the procedure carries on as below the
+   limit: the timer restarts at the current time, the counter is incremented, the EOF is queued again with the contents
+   of the original (with its EOF-Sent indication where configured), the step is kept; nothing else changes.
+   Before the repair the call returned right after the callback: only the log entry was added, the timer stayed
+   expired and the counter stayed where it was. *)
+Theorem c04_src_ack_limit_ignored_continues : forall s r t ck cond a b,
+  src_waiting_ack s r t -> timed_out (now_s s) t = true -> r_ack_limit r <= q_ack_counter (s_p s) + 1 ->
+  get_fault_handler (l_faults (s_cfg s)) C_POS_ACK_LIMIT = Some FH_IGNORE ->
+  q_tid (s_p s) = Some (a, b) -> q_cond_eof (s_p s) = Some cond ->
+  (forall s0, s_put s0 = s_put s -> fs_s s0 = fs_s s -> q_rcfg (s_p s0) = q_rcfg (s_p s) ->
+              q_segment_len (s_p s0) = q_segment_len (s_p s) -> q_md_only (s_p s0) = q_md_only (s_p s) ->
+              checksum_calculation (q_progress (s_p s)) s0 = (s0, Ok ck)) ->
+  state_machine_s None s =
+    (s <| s_queue := [PEof (hdr_of (q_conf (s_p s)) TOWARDS_RECEIVER) cond ck (q_progress (s_p s)) None] |>
+       <| s_ready := s_ready s + 1 |>
+       <| s_p ::= (fun q => q <| q_ack_timer := Some (now_s s, snd t) |>
+                              <| q_ack_counter := q_ack_counter (s_p s) + 1 |>) |>
+       <| s_env ::= (fun en => en <| e_log :=
+            (if l_ind_eof_sent (s_cfg s) then [EvEofSent a b] else []) ++
+            EvFault FH_IGNORE a b C_POS_ACK_LIMIT (q_progress (s_p s)) :: log_s s |>) |>, Ok tt).
+Proof. exact src_ack_limit_ignored_continues. Qed.
+Print Assumptions c04_src_ack_limit_ignored_continues.
+
+(* ... and the ignored fault is not declared again: once the queued EOF is retrieved, a call at any time before the
+   next expiry (the restarted timer not timed out) delivers nothing and changes nothing.
+   This was false before the repair: the call at the limit left the timer expired and the counter at the limit, so
+   EVERY following state_machine() call, at whatever time, delivered another IGNORE callback for Positive ACK Limit
+   Reached (one more log entry per call), and the EOF was never sent again. *)
+Theorem c04_src_ack_limit_ignored_not_redeclared : forall s r t ck cond a b s1 ps n',
+  src_waiting_ack s r t -> timed_out (now_s s) t = true -> r_ack_limit r <= q_ack_counter (s_p s) + 1 ->
+  get_fault_handler (l_faults (s_cfg s)) C_POS_ACK_LIMIT = Some FH_IGNORE ->
+  q_tid (s_p s) = Some (a, b) -> q_cond_eof (s_p s) = Some cond ->
+  (forall s0, s_put s0 = s_put s -> fs_s s0 = fs_s s -> q_rcfg (s_p s0) = q_rcfg (s_p s) ->
+              q_segment_len (s_p s0) = q_segment_len (s_p s) -> q_md_only (s_p s0) = q_md_only (s_p s) ->
+              checksum_calculation (q_progress (s_p s)) s0 = (s0, Ok ck)) ->
+  pump s = (s1, Ok ps) ->                                  (* the call at the limit, its EOF retrieved *)
+  timed_out n' (now_s s, snd t) = false ->                 (* any time before the next expiry *)
+  let s2 := s1 <| s_env ::= (fun en => en <| e_now := n' |>) |> in
+  state_machine_s None s2 = (s2, Ok tt).
+Proof. exact src_ack_limit_ignored_not_redeclared. Qed.
+Print Assumptions c04_src_ack_limit_ignored_not_redeclared.
 
 (* progress: the expected ACK ends the procedure *)
 Theorem c04_src_ack_ends : forall s r t h c st,
